@@ -57,7 +57,7 @@ impl Check for C02 {
         tier.pick(50_000, 1_000_000)
     }
     fn strategy(&self, _tier: Tier) -> BoxedStrategy<Case> {
-        (gt::choices(180), gt::choices(60))
+        (gt::choices(184), gt::choices(60))
             .prop_map(|(task, interp)| Case { task, interp })
             .boxed()
     }
@@ -192,7 +192,7 @@ impl Check for C19 {
     fn strategy(&self, _tier: Tier) -> BoxedStrategy<FlagCase> {
         let c = c01::cfg();
         prop_oneof![
-            3 => (gt::choices(180), gt::choices(60)).prop_map(|(task, interp)| FlagCase::External { task, interp }),
+            3 => (gt::choices(184), gt::choices(60)).prop_map(|(task, interp)| FlagCase::External { task, interp }),
             2 => (ga::program(&c), ga::shaped_program(&c, 1), any::<bool>(), g::raw_interp(5, 0, 2, 5))
                 .prop_map(|(left, right, mu, raw)| FlagCase::Strong { left, right, mu, raw }),
             // rules with three arithmetic / interval terms in one atom (several fresh variables of one
@@ -203,13 +203,39 @@ impl Check for C19 {
         .boxed()
     }
     fn rule(&self) -> String {
-        "external tasks (as in C02) and strong tasks over unrestricted random programs (unsafe rules, nested arithmetic) x one interpretation (guided as in C02; for strong tasks a random interpretation of the h-/t-copies with H subset-of T, in one case of three with the two copies of one predicate exchanged so that H is not a subset of T); the problems are generated under all 8 combinations of simplify / eq-break / decomposition; oracle: for each direction the verdict 'some problem has all axioms true and its conjecture false' (exact evaluation) is the same under every combination whenever definite; non-trivial = the axioms of some problem hold under some combination; distinct by task + interpretation".into()
+        "external tasks (as in C02; one in three over the tricky names of C09/C12, where a symbolic constant is renamed because of a 0-ary predicate; comparisons also with the constant as leading term) and strong tasks over unrestricted random programs (unsafe rules, nested arithmetic) x one interpretation (guided as in C02; for strong tasks a random interpretation of the h-/t-copies with H subset-of T, in one case of three with the two copies of one predicate exchanged so that H is not a subset of T); the problems are generated under all 8 combinations of simplify / eq-break / decomposition; oracle: for each direction the verdict 'some problem has all axioms true and its conjecture false' (exact evaluation) is the same under every combination whenever definite; non-trivial = the axioms of some problem hold under some combination; distinct by task + interpretation".into()
     }
     fn run(&self, case: &FlagCase) -> Outcome {
         let (vs, description, jtext) = match case {
             FlagCase::External { task, interp } => {
                 let mut c = Chooser::new(task.clone());
-                let mut t = gt::external_task(&mut c);
+                // one task in three uses the tricky names of C09/C12 (a symbolic constant spelled like a
+                // 0-ary predicate, which anthem renames in every problem): the flags must not matter
+                // there either (choice vectors shorter than 184 predate this)
+                let mut t = if task.len() >= 184 && c.aux(131, 3) == 0 {
+                    let names = gt::Names::tricky(&mut c);
+                    gt::external_task_with(&mut c, names)
+                } else {
+                    gt::external_task(&mut c)
+                };
+                // a task whose names include the 0-ary predicate z next to the symbolic constant z gets one more
+                // rule that compares with that constant, written with the constant first or last, in the second
+                // program (or in both): `o(X) :- in(X), z != X.`
+                if t.names.outputs.iter().any(|p| p.0 == "z" && p.1 == 0) && t.names.symbols.iter().any(|s| s == "z") {
+                    let o = t.names.outputs.iter().find(|p| p.1 == 1).map(|p| p.0.clone());
+                    let i = t.names.inputs.iter().find(|p| p.1 == 1).map(|p| p.0.clone());
+                    if let (Some(o), Some(i)) = (o, i) {
+                        let cmp = ["z != X", "X != z", "z = X", "z < X", "z >= X"][c.aux(132, 5)];
+                        if let Ok(rule) = format!("{o}(X) :- {i}(X), {cmp}.").parse::<asp::Rule>() {
+                            t.right.rules.push(rule.clone());
+                            if c.aux(133, 3) == 0 {
+                                if let Some(p) = t.left_program.as_mut() {
+                                    p.rules.push(rule);
+                                }
+                            }
+                        }
+                    }
+                }
                 // one task in four also has a public ternary predicate defined through three arithmetic
                 // terms at once: o3(X+1, Y+2, W*2) :- in3(X, Y, W).  (several fresh variables of one
                 // letter in one block of the completed definition); same rule on both sides
@@ -328,7 +354,12 @@ impl Check for C19 {
         match case {
             FlagCase::External { task, interp } => {
                 let mut c = Chooser::new(task.clone());
-                let t = gt::external_task(&mut c);
+                let t = if task.len() >= 184 && c.aux(131, 3) == 0 {
+                    let names = gt::Names::tricky(&mut c);
+                    gt::external_task_with(&mut c, names)
+                } else {
+                    gt::external_task(&mut c)
+                };
                 json!({"kind": "external", "task": task, "interp": interp, "readable": describe_external(&t)})
             }
             FlagCase::Strong { left, right, mu, raw } => json!({
